@@ -751,6 +751,9 @@ class ODLEncoder(PVLEncoder):
                 f'The keyword "{key}" is not a valid ODL ' "Identifier."
             )
 
+        # Reserved words (END, GROUP, ...) are identifiers, but not names.
+        self._check_name(ident.lstrip("^"))
+
         s = "{} = ".format(ident.ljust(key_len))
         s += self.encode_value(value)
 
